@@ -377,13 +377,28 @@ def impl_observe(data, names, tagq):
             if isinstance(s, DynamicSegment):
                 d = tags_part(s)
                 d['num_symbols'] = run_impl(s.num_symbols)
+                # an abandoned partial walk on the same object first (callers break out of iter_symbols()); the
+                # number of items taken is derived from the content so that the case replays identically
+                try:
+                    it = s.iter_symbols()
+                    for _ in range((sum(data[-48:]) + len(data) // 8) % 3):
+                        next(it, None)
+                    del it
+                except Exception:       # noqa: BLE001
+                    pass
                 d['symbols'] = run_impl(lambda: [sym_obs(x) for x in s.iter_symbols()])
 
                 def by_name(q):
                     # a fresh object per query: a failed first call leaves a partial name map behind (history: C10)
                     r = f.get_segment(idx).get_symbol_by_name(bytes.fromhex(q).decode('utf-8'))
                     return None if r is None else [sym_obs(x) for x in r]
-                d['by_name'] = [run_impl(lambda q=q: by_name(q)) for q in names]
+
+                def by_name_same(q):
+                    # … and on the walked object itself for every second query (its name map is built from
+                    # iter_symbols(), after the abandoned walk above)
+                    r = s.get_symbol_by_name(bytes.fromhex(q).decode('utf-8'))
+                    return None if r is None else [sym_obs(x) for x in r]
+                d['by_name'] = [run_impl(lambda q=q, k=k: by_name_same(q) if k % 2 else by_name(q)) for k, q in enumerate(names)]
                 d['relocs'] = run_impl(lambda: relocs_obs(s))
                 d['table_offsets'] = [run_impl(lambda t=t: list(s.get_table_offset(t))) for t in tagq]
                 return d
